@@ -177,6 +177,7 @@ func VerifC11SaveLoad() {
 			verifAssert(errClass(e1) == errClass(e2), "verdict-differs-after-load")
 		case 1:
 			before := h.observeBest(h.repo, prune)
+			verifAssume(h.scaledSaveIsFaithful())
 			if err := h.repo.Save(h.ctx); err != nil {
 				verifAssert(false, "save-returns-error")
 				return
